@@ -136,6 +136,22 @@ func c14Directed() []struct {
 			{Kind: "load", Branch: "main", Vals: []string{"{k:1,id:1}", "{k:null(int64),id:2}", "{k:7,id:3}", "{k:null,id:4}", "{id:5}"}},
 			{Kind: "delete-where", Branch: "main", Pred: "k <= 2.5"},
 			{Kind: "delete-where", Branch: "main", Pred: "k < 8"}}},
+		// 4: descending pool, objects [null..2], [0..0], [missing..-1]: the object listing must
+		// keep the two objects that start at null together (0 and null have the same bytes);
+		// every step re-lists the objects several times
+		{lk.PoolSpec{Name: "p", Key: "k", Order: "desc"}, []lk.Op{
+			{Kind: "load", Branch: "main", Vals: []string{"{k:null,id:1}", "{k:9,id:2}", "{k:2,id:3}"}},
+			{Kind: "load", Branch: "main", Vals: []string{"{id:4}", "{k:8,id:5}", "{k:-1,id:6}"}},
+			{Kind: "load", Branch: "main", Vals: []string{"{k:0,id:7}"}},
+			{Kind: "add-vectors", Branch: "main", Objs: []int{0}},
+			{Kind: "del-vectors", Branch: "main", Objs: []int{0}},
+			{Kind: "add-vectors", Branch: "main", Objs: []int{1}},
+			{Kind: "del-vectors", Branch: "main", Objs: []int{1}},
+			{Kind: "add-vectors", Branch: "main", Objs: []int{2}},
+			{Kind: "compact", Branch: "main", Objs: []int{0, 1, 2}},
+			{Kind: "load", Branch: "main", Vals: []string{"{k:0,id:8}"}},
+			{Kind: "load", Branch: "main", Vals: []string{"{k:null,id:9}", "{k:1,id:10}"}},
+			{Kind: "compact", Branch: "main", Objs: []int{0, 1, 2}}}},
 	}
 }
 
